@@ -110,6 +110,10 @@ CATALOGUE = [
     # values created by expressions without names, changed by the template
     '<dtml-let acc="[]"><dtml-in s3><dtml-call "acc.append(xi)"></dtml-in>'
     '<dtml-var "acc"></dtml-let>',
+    # loop variables computed on demand (statistics) asked more than once
+    '<dtml-in s4><dtml-var xi><dtml-if total-xi>y<dtml-else>n</dtml-if>,'
+    '<dtml-if sequence-end><dtml-var total-xi>|<dtml-var max-xi>|'
+    '<dtml-var count-va></dtml-if></dtml-in>',
     '<dtml-let d="{}" e="[1]"><dtml-call "d.update({sk: va})">'
     '<dtml-call "e.append(sk)"><dtml-var "_.len(d)">:<dtml-var "e">'
     '</dtml-let>',
@@ -135,6 +139,9 @@ def namespaces():
         ns['URL'] = 'http://h/p'
         ns['RESPONSE'] = dict(t='response')
         ns['expand_all'] = 1
+        # a sequence that is empty for every other thread
+        ns['sq'] = dict(t='list', items=[] if i % 2 else
+                        ['q%d%d' % (i, k) for k in range(3)])
         pool.append(ns)
     return pool
 
@@ -336,6 +343,34 @@ def cook_race_sweep(acc, src, i, j, p1s, stride3=1, stride2=1):
                     acc.fail(bad[0] + ':cook-race', case, bad[1])
 
 
+LOOP_VARS = ('<dtml-in sq><dtml-var sequence-number>=<dtml-var sequence-item>'
+             ' <dtml-if sequence-even>e</dtml-if><dtml-else>none</dtml-in>|'
+             '<dtml-var va>')
+
+
+def cook_vs_render_sweep(acc, src, i, j, p1s, stride2=1):
+    """Two preemptions around the first compilation: thread B is stopped
+    within its first steps (it has seen that the template is not compiled,
+    and has not compiled it yet), thread A compiles and renders up to its
+    p2-th line anywhere in the package, B runs to its end (compiling the
+    template once more), A finishes."""
+    specs = [POOL[i], POOL[j]]
+    expected = [sequential(src, 'dtml', s) for s in specs]
+    res, steps, _ = run_schedule(src, 'dtml', specs, [], False, None)
+    sa = steps[0]
+    for p1 in p1s:
+        for p2 in range(1 + p1 % stride2, sa + 1, stride2):
+            segs = [[1, p1], [0, p2], [1, -1], [0, -1]]
+            res, st, at = run_schedule(src, 'dtml', specs, segs, False, None)
+            case = dict(src=src, syntax='dtml', ns=[i, j], segments=segs,
+                        cooked=False)
+            acc.case(case, True, klass='compile-while-rendering',
+                     distinct_by_construction=True)
+            bad = judge(res, expected, at)
+            if bad:
+                acc.fail(bad[0] + ':compile-while-rendering', case, bad[1])
+
+
 CFG = None
 
 
@@ -397,6 +432,12 @@ def plan(tier, seed):
         if tier == 'thorough':
             shards.append(dict(kind='cook-race', src=CATALOGUE[5],
                                ns=[1, 0], p1s=[p1], stride3=1))
+    for p1 in range(1, 13):
+        shards.append(dict(kind='cook-vs-render', src=LOOP_VARS, ns=[0, 1],
+                           p1s=[p1], stride2=1))
+        if tier == 'thorough':
+            shards.append(dict(kind='cook-vs-render', src=CATALOGUE[-2],
+                               ns=[2, 3], p1s=[p1], stride2=1))
     n = 60 if tier == 'quick' else 1500
     for i in range(8 if tier == 'quick' else 16):
         shards.append(dict(kind='random', seed=seed * 1000 + i, n=n))
@@ -418,6 +459,10 @@ def run_shard(shard):
         cook_race_sweep(acc, shard['src'], shard['ns'][0], shard['ns'][1],
                         shard['p1s'], shard['stride3'],
                         shard.get('stride2', 1))
+        return acc.result()
+    if shard['kind'] == 'cook-vs-render':
+        cook_vs_render_sweep(acc, shard['src'], shard['ns'][0],
+                             shard['ns'][1], shard['p1s'], shard['stride2'])
         return acc.result()
     if shard['kind'] == 'sweep':
         sweep(acc, shard['src'], 'dtml', shard['ns'][0], shard['ns'][1],
